@@ -1,7 +1,8 @@
 #!/bin/bash
-# usage: run_all_quick.sh [tier] [parallel]  -- every check on the current tree, summary lines only
-tier=${1:-quick}; par=${2:-4}
-cd /verif
-ls evidence >/dev/null 2>&1 || mkdir evidence
+# usage: run_all_quick.sh [tier] [parallel] [seed]  -- every check on the current tree, summary lines only
+tier=${1:-quick}; par=${2:-4}; seed=${3:-}
+cd "$(dirname "$(readlink -f "$0")")/.."
+O=out/sweep_${tier}${seed:+_$seed}; mkdir -p $O evidence
+[ -n "$seed" ] && export VERIF_SEED=$seed
 printf '%s\n' C01 C02 C03 C04 C05 C06 C07 C08 C09 C10 C11 C12 C13 C14 C15 C16 C17 C18 C19 | \
-  xargs -P $par -I{} sh -c "./check {} $tier > /tmp/all_{}_$tier.out 2>&1; echo \"{} rc=\$? \$(grep -E '^(OK|VIOLATION|KNOWN-FINDING)' /tmp/all_{}_$tier.out | head -3 | tr '\n' ' ')\""
+  xargs -P $par -I{} sh -c "./check {} $tier > $O/{}.out 2>&1; echo \"{} rc=\$? \$(grep -E '^(OK|VIOLATION|KNOWN-FINDING)' $O/{}.out | head -3 | tr '\n' ' ')\""
